@@ -125,7 +125,9 @@ def rand_value(rng, depth=2):
     if c < 0.42:
         return {'f': repr(rng.choice([0.5, -0.0, 1.25, 1e100, 3.0]))}
     if c < 0.62:
-        return {'s': rng.choice(['', 'a', 'b', 'ab', 'x y', 'quote"d', 'back\\slash', 'é', '\U0001f600', 'line\nbreak', '#1', 'args='])}
+        return {'s': rng.choice(['', 'a', 'b', 'ab', 'x y', 'quote"d', 'back\\slash', 'é', '\U0001f600', 'line\nbreak', '#1', 'args=',
+                                # texts that look like the recorder's own reserved names (they are ordinary values)
+                                '_tape_recorder_operation', '_tape_recorder_operation_class', 'output: _tape_recorder_operation #1.output'])}
     if c < 0.68:
         return {'b': bytes(rng.randrange(256) for _ in range(rng.randint(0, 12))).hex()}
     if depth <= 0:
